@@ -659,7 +659,7 @@ fn run_async<R: AsyncFileReader + Unpin + Send + 'static>(
     let mut trace = String::new();
     let mut out = vec![];
     if mode == 'd' {
-        for _ in 0..1_000_000 {
+        for _ in 0..50_000 {
             match stream.poll_next_unpin(&mut cx) {
                 Poll::Pending => trace.push('P'),
                 Poll::Ready(Some(Ok(b))) => {
@@ -677,9 +677,15 @@ fn run_async<R: AsyncFileReader + Unpin + Send + 'static>(
             }
         }
     } else {
-        'outer: for _ in 0..100_000 {
+        'outer: for _ in 0..5_000 {
             let mut fut = Box::pin(stream.next_row_group());
+            let mut spins = 0;
             loop {
+                spins += 1;
+                if spins > 50_000 {
+                    trace.push('E');
+                    break 'outer;
+                }
                 match fut.as_mut().poll(&mut cx) {
                     Poll::Pending => trace.push('P'),
                     Poll::Ready(Ok(Some(r))) => match r.collect::<Result<Vec<_>, _>>() {
@@ -845,8 +851,10 @@ fn run_rd(t: &[&str]) -> CaseOut {
             problems.push("rows-not-a-prefix".into());
         }
     }
-    let info = format!("needs:{} rows:{}", run.n_needs.min(9), rows_of(&run.out).0.min(1) );
-    CaseOut { answer: if run.events.is_empty() { "-".into() } else { run.events.join(",") }, problems, info }
+    let info = format!("needs:{} rows:{}", run.n_needs.min(9), rows_of(&run.out).0.min(1));
+    // bytes still buffered at the end of the schedule (`clear_ranges` releases exactly the consumed requests)
+    let bb = run.dec.as_ref().map(|d| d.buffered_bytes()).unwrap_or(0);
+    CaseOut { answer: format!("{} bb={}", if run.events.is_empty() { "-".into() } else { run.events.join(",") }, bb), problems, info }
 }
 
 fn run_as(t: &[&str]) -> CaseOut {
@@ -922,7 +930,7 @@ fn gen_file_spec(rng: &mut Rng, pool: u64) -> String {
     // a small pool of files per run (building a file is the expensive part)
     let id = rng.below(pool);
     let mut r = Rng::new(id.wrapping_mul(0x9E37) ^ 0xC15F);
-    let nrows = *r.pick(&[0usize, 1, 17, 40, 64, 64, 90, 90, 120, 120, 150, 150]);
+    let nrows = *r.pick(&[0usize, 1, 17, 17, 40, 40, 64, 64, 64, 90, 90, 90, 120, 120, 120, 150, 150, 150, 33, 100]);
     let rg = *r.pick(&[5usize, 16, 20, 33, 50, 200]);
     let page = *r.pick(&[1usize, 3, 4, 7, 10, 1000]);
     let dict = r.usize(2);
@@ -965,6 +973,12 @@ fn gen_opts(rng: &mut Rng, f: &FileInfo) -> Opts {
             keep = !keep;
             if rng.chance(1, 6) {
                 break;
+            }
+        }
+        if !v.iter().any(|(k, n)| *k && *n > 0) && !v.is_empty() && rng.chance(5, 6) {
+            v[0].0 = true; // mostly select something
+            if v.len() > 1 {
+                v[1].0 = false;
             }
         }
         if rng.chance(1, 10) {
@@ -1273,7 +1287,7 @@ fn main() {
         }
     } else {
         let mut rng = Rng::new(args.seed ^ 0xC15);
-        let n = n_cases(&args, 2500, 60000);
+        let n = n_cases(&args, 12000, 300000);
         let pool = if args.tier == "thorough" { 400 } else { 40 };
         let mut made = 0;
         let mut tries = 0;
